@@ -1,7 +1,8 @@
 """
 Source-to-Lean translation of the attribute handling of `ModelicaMixin`
 ($RTC_REPO/src/rtctools/optimization/modelica_mixin.py): the per-variable loop bodies of
-`bounds()`, `history()`, `seed()` and the nominal dictionary (`__nominals`), together with WHICH
+`bounds()`, `history()`, `seed()` and the nominal dictionary (`__nominals`), the role classification of
+the inputs in `__init__` and `output_variables` (second table below), together with WHICH
 ensemble member's parameters they substitute and WHICH pymoca variable lists they run over -- a
 second tie for C14 besides the correspondence check.  On every run of C14 the methods are parsed
 with `ast`, the loop body is executed symbolically path by path (form of the attribute x result of
@@ -45,6 +46,30 @@ Loop body, Python construct                          -> model term   (TRUSTED ma
   continue / end of body without a store             -> outcome `keep`
   raise Exception(...)                               -> outcome `raise`
   logger.<level>(...) , if logger.getEffectiveLevel() == logging.DEBUG: ...   -> nothing
+
+Role classification (`__init__`) and `output_variables` (-> inputRoleGen / roleListGen / outputsGen / exportedGen,
+theorems `..._eq_model` against `inputRoleOpt` / `roleListOf` / `outputsOf` / `exportedOf`):
+  self.__mx["control_inputs" | "constant_inputs" | "lookup_tables"] = []   (top level of __init__, before the loop)
+                                                     -> the role lists start empty
+  for <v> in self.__pymoca_model.inputs:  (the one top-level loop of __init__ over the inputs)
+                                                     -> `List.foldl` over the `InputRec`s (one record `i` per input)
+  if <c>: <A> else: <B>     (both branches present, one statement or one nested `if` each)
+                                                     -> `if <c> then <A> else <B>`
+  <v>.symbol.name() in self.__pymoca_model.delay_states      -> `isDelay`
+  <v>.symbol.name() in kwargs.get("lookup_tables", [])       -> `isLookup`
+  <v>.fixed                                                  -> `fixed`
+  not c / c and c / c or c                                   -> `!c` / `c && c` / `c || c`
+  self.__mx["algebraics" | "lookup_tables" | "constant_inputs" | "control_inputs"].append(<v>.symbol)
+                                                     -> the role `.algebraic | .lookup | .constantInput | .control`
+  (no other statement of the class may assign, delete or call a mutating method on these three lists)
+  output_variables:  decorators @property, @cached only
+  [ca.MX.sym(<x>) for <x> in self.__pymoca_model.outputs]    -> `declared`  (a symbol named as the declared output)
+  self.__mx["control_inputs"]                                -> `controls`
+  list(e) / e.copy() / e + e                                 -> `e` / `e` / `e ++ e`
+  <L> = e  (e a fresh list: not the bare controls list)      -> binding
+  <L>.extend(e)                                              -> `L := L ++ e`
+  return e                                                   -> the value
+  (a comprehension with a filter, a set, a conditional, any other call -> REJECTED)
 """
 import ast
 import os
@@ -574,8 +599,9 @@ HEADER = """import RtcVerif.Model.C14
 import RtcVerif.Proofs.C14Lemmas
 /-!
 GENERATED on every run of the C14 check by harness/translate_c14.py from `ModelicaMixin.bounds`,
-`history`, `seed` and `__nominals` in src/rtctools/optimization/modelica_mixin.py (symbolic
-execution of the per-variable loop body, path by path).  Do not edit.  Each `...Gen` is the source;
+`history`, `seed`, `__nominals` (symbolic execution of the per-variable loop body, path by path), the
+role classification loop of `__init__` and `output_variables` in
+src/rtctools/optimization/modelica_mixin.py.  Do not edit.  Each `...Gen` is the source;
 each `..._eq_model` ties it to the model function the C14 property theorems are about.
 -/
 set_option linter.unusedVariables false
@@ -607,9 +633,205 @@ SPECS = [
 ]
 
 
+# role classification and output_variables --------------------------------------------------------
+
+ROLE_KEYS = {"algebraics": ".algebraic", "lookup_tables": ".lookup", "constant_inputs": ".constantInput",
+             "control_inputs": ".control"}
+ROLE_LISTS = ("control_inputs", "constant_inputs", "lookup_tables")
+MUTATORS = ("append", "extend", "insert", "remove", "pop", "clear", "sort", "reverse", "__iadd__", "__setitem__", "__delitem__")
+
+
+def _mx_key(node):
+    if isinstance(node, ast.Subscript) and _is_priv(node.value, "mx") and isinstance(node.slice, ast.Constant) \
+            and isinstance(node.slice.value, str):
+        return node.slice.value
+    return None
+
+
+def _class(tree):
+    for node in ast.walk(tree):
+        if isinstance(node, ast.ClassDef) and node.name == "ModelicaMixin":
+            return node
+    raise TranslationError("class ModelicaMixin not found")
+
+
+def _is_pymoca_list(node, name):
+    return isinstance(node, ast.Attribute) and _is_priv(node.value, "pymoca_model") and node.attr == name
+
+
+def translate_roles(tree):
+    cls = _class(tree)
+    fn = _find(tree, "__init__")
+    kw = fn.args.kwarg.arg if fn.args.kwarg else None
+    loops = [st for st in fn.body if isinstance(st, ast.For) and _is_pymoca_list(st.iter, "inputs")
+             and any(_mx_key(n) for n in ast.walk(st))]
+    if len(loops) != 1:
+        raise TranslationError("__init__: expected one top-level loop over the pymoca inputs that fills the role lists, found %d" % len(loops))
+    loop = loops[0]
+    if loop.orelse or not isinstance(loop.target, ast.Name):
+        raise TranslationError("__init__: unsupported loop header `%s`" % _u(loop))
+    v = loop.target.id
+    # the role lists start empty, before the loop
+    inits = {}
+    for st in fn.body[:fn.body.index(loop)]:
+        if isinstance(st, ast.Assign) and len(st.targets) == 1 and _mx_key(st.targets[0]) in ROLE_LISTS:
+            if not (isinstance(st.value, ast.List) and not st.value.elts):
+                raise TranslationError("__init__: `%s` does not start a role list empty" % _u(st))
+            inits[_mx_key(st.targets[0])] = st
+    if set(inits) != set(ROLE_LISTS):
+        raise TranslationError("__init__: role lists not initialised to [] before the loop: %s" % sorted(set(ROLE_LISTS) - set(inits)))
+    leaves = []
+
+    def cond(n):
+        if isinstance(n, ast.UnaryOp) and isinstance(n.op, ast.Not):
+            return "(!%s)" % cond(n.operand)
+        if isinstance(n, ast.BoolOp):
+            return "(" + (" && " if isinstance(n.op, ast.And) else " || ").join(cond(x) for x in n.values) + ")"
+        if isinstance(n, ast.Attribute) and isinstance(n.value, ast.Name) and n.value.id == v and n.attr == "fixed":
+            return "fixed"
+        if isinstance(n, ast.Compare) and len(n.ops) == 1 and isinstance(n.ops[0], (ast.In, ast.NotIn)) \
+                and _u(n.left) == "%s.symbol.name()" % v:
+            r = n.comparators[0]
+            if _is_pymoca_list(r, "delay_states"):
+                a = "isDelay"
+            elif kw and _u(r) in ("%s.get('lookup_tables', [])" % kw, "%s.get('lookup_tables', ())" % kw):
+                a = "isLookup"
+            else:
+                raise TranslationError("__init__: unsupported membership test `%s`" % _u(n))
+            return a if isinstance(n.ops[0], ast.In) else "(!%s)" % a
+        raise TranslationError("__init__: unsupported condition `%s`" % _u(n))
+
+    def block(stmts, ind):
+        stmts = [s for s in stmts if not (isinstance(s, ast.Expr) and isinstance(s.value, ast.Constant))]
+        if len(stmts) != 1:
+            raise TranslationError("__init__: a branch of the role classification must be one statement, got %d" % len(stmts))
+        st = stmts[0]
+        if isinstance(st, ast.If):
+            if not st.orelse:
+                raise TranslationError("__init__: `if` without `else` in the role classification (an input would get no role)")
+            return "%sif %s then\n%s\n%selse\n%s" % (ind, cond(st.test), block(st.body, ind + "  "), ind, block(st.orelse, ind + "  "))
+        if isinstance(st, ast.Expr) and isinstance(st.value, ast.Call) and isinstance(st.value.func, ast.Attribute) \
+                and st.value.func.attr == "append" and _mx_key(st.value.func.value) in ROLE_KEYS \
+                and len(st.value.args) == 1 and not st.value.keywords and _u(st.value.args[0]) == "%s.symbol" % v:
+            leaves.append(st.value.func)
+            return ind + ROLE_KEYS[_mx_key(st.value.func.value)]
+        raise TranslationError("__init__: unsupported statement in the role classification `%s`" % _u(st))
+
+    body = block(loop.body, "  ")
+    # nothing else in the class changes the role lists
+    allowed_targets = {id(st.targets[0]) for st in inits.values()}
+    for node in ast.walk(cls):
+        if isinstance(node, ast.Attribute) and _mx_key(node.value) in ROLE_LISTS and node.attr in MUTATORS \
+                and not any(node is l for l in leaves):
+            raise TranslationError("a role list is changed outside the classification loop: `%s`" % _u(node))
+        tg = []
+        if isinstance(node, ast.Assign):
+            tg = node.targets
+        elif isinstance(node, (ast.AugAssign, ast.AnnAssign)):
+            tg = [node.target]
+        elif isinstance(node, ast.Delete):
+            tg = node.targets
+        for t in tg:
+            for sub in ast.walk(t):
+                if _mx_key(sub) in ROLE_LISTS and id(sub) not in allowed_targets:
+                    raise TranslationError("a role list is assigned outside its initialisation: `%s`" % _u(node))
+    text = "def inputRoleGen (isDelay isLookup fixed : Bool) : Role :=\n%s\n\n" % body
+    text += ("theorem inputRoleGen_eq_model (isDelay isLookup fixed : Bool) :\n"
+             "    inputRoleGen isDelay isLookup fixed = inputRoleOpt isDelay isLookup fixed := by\n"
+             "  cases isDelay <;> cases isLookup <;> cases fixed <;> rfl\n\n")
+    text += ("/-- the role lists start empty and get the input's name appended when the classification says so -/\n"
+             "def roleListGen (r : Role) (inputs : List InputRec) : List String :=\n"
+             "  inputs.foldl (fun acc i => if inputRoleGen i.isDelay i.isLookup i.fixed = r then acc ++ [i.name] else acc) []\n\n"
+             "theorem roleListGen_eq_model (r : Role) (inputs : List InputRec) :\n"
+             "    roleListGen r inputs = roleListOf r inputs := by\n"
+             "  unfold roleListGen\n"
+             "  rw [foldl_collect (fun i => inputRoleGen i.isDelay i.isLookup i.fixed) r]\n"
+             "  simp only [roleListOf, InputRec.role, inputRoleGen_eq_model, List.nil_append]\n"
+             "  congr\n\n")
+    return text, ["inputRoleGen_eq_model", "roleListGen_eq_model"]
+
+
+def translate_outputs(tree):
+    fn = _find(tree, "output_variables")
+    decos = sorted(_u(d) for d in fn.decorator_list)
+    if decos != ["cached", "property"]:
+        raise TranslationError("output_variables: unexpected decorators %s" % decos)
+    env = {}
+
+    def ev(n):
+        """-> (lean term, fresh?)   fresh = a new list object (extending it does not touch the role list)"""
+        if isinstance(n, ast.Name):
+            if n.id not in env:
+                raise TranslationError("output_variables: unknown name " + n.id)
+            return env[n.id], False
+        if _mx_key(n) == "control_inputs":
+            return "controls", False
+        if isinstance(n, ast.ListComp):
+            g = n.generators
+            if len(g) == 1 and not g[0].ifs and not g[0].is_async and isinstance(g[0].target, ast.Name) \
+                    and _is_pymoca_list(g[0].iter, "outputs") and _u(n.elt) == "ca.MX.sym(%s)" % g[0].target.id:
+                return "declared", True
+            raise TranslationError("output_variables: unsupported comprehension `%s`" % _u(n))
+        if isinstance(n, ast.Call) and isinstance(n.func, ast.Name) and n.func.id == "list" and len(n.args) == 1 and not n.keywords:
+            return ev(n.args[0])[0], True
+        if isinstance(n, ast.Call) and isinstance(n.func, ast.Attribute) and n.func.attr == "copy" and not n.args and not n.keywords:
+            return ev(n.func.value)[0], True
+        if isinstance(n, ast.BinOp) and isinstance(n.op, ast.Add):
+            return "(%s ++ %s)" % (ev(n.left)[0], ev(n.right)[0]), True
+        raise TranslationError("output_variables: unsupported expression `%s`" % _u(n))
+
+    result = None
+    body = [s for s in fn.body if not (isinstance(s, ast.Expr) and isinstance(s.value, ast.Constant))]
+    for k, st in enumerate(body):
+        if isinstance(st, ast.Assign) and len(st.targets) == 1 and isinstance(st.targets[0], ast.Name):
+            term, fresh = ev(st.value)
+            if not fresh:
+                raise TranslationError("output_variables: `%s` binds a list that is not a fresh copy" % _u(st))
+            env[st.targets[0].id] = term
+        elif isinstance(st, ast.Expr) and isinstance(st.value, ast.Call) and isinstance(st.value.func, ast.Attribute) \
+                and st.value.func.attr == "extend" and isinstance(st.value.func.value, ast.Name) \
+                and len(st.value.args) == 1 and not st.value.keywords:
+            nm = st.value.func.value.id
+            if nm not in env:
+                raise TranslationError("output_variables: extend of an unknown list " + nm)
+            env[nm] = "(%s ++ %s)" % (env[nm], ev(st.value.args[0])[0])
+        elif isinstance(st, ast.Return) and st.value is not None and k == len(body) - 1:
+            result = ev(st.value)[0]
+        else:
+            raise TranslationError("output_variables: unsupported statement `%s`" % _u(st))
+    if result is None:
+        raise TranslationError("output_variables: no return value")
+    text = "def outputsGen (declared controls : List String) : List String :=\n  %s\n\n" % result
+    text += ("theorem outputsGen_eq_model (declared controls : List String) :\n"
+             "    outputsGen declared controls = outputsOf declared controls := by\n"
+             "  simp [outputsGen, outputsOf]\n\n")
+    return text, ["outputsGen_eq_model"]
+
+
+EXPORTED = ("/-- `output_variables` on top of the role lists `__init__` builds -/\n"
+            "def exportedGen (declared : List String) (inputs : List InputRec) : List String :=\n"
+            "  outputsGen declared (roleListGen .control inputs)\n\n"
+            "theorem exportedGen_eq_model (declared : List String) (inputs : List InputRec) :\n"
+            "    exportedGen declared inputs = exportedOf declared inputs := by\n"
+            "  simp [exportedGen, exportedOf, controlsOf, outputsGen_eq_model, roleListGen_eq_model]\n\n")
+
+
 def translate(path):
     tree = ast.parse(open(path).read())
     out, thms, failed = [HEADER], [], []
+    done = []
+    for nm, fnc in (("__init__ (role classification)", translate_roles), ("output_variables", translate_outputs)):
+        try:
+            text, t = fnc(tree)
+        except TranslationError as e:
+            failed.append((nm, str(e)))
+            continue
+        out.append(text)
+        thms += t
+        done.append(nm)
+    if len(done) == 2:
+        out.append(EXPORTED)
+        thms.append("exportedGen_eq_model")
     for (gen, method, use, sig, model, args, proof) in SPECS:
         try:
             body, info = translate_method(tree, method, gen)
